@@ -12,5 +12,5 @@ CONSTANTS
   TamperMax = 11
   WireVersions <- NoVersions
 INVARIANTS TypeOK PRedactedIffMismatch PRedactedNoop PRedactedForm PIntact PIdSigIff PSigsTogether
-  PSpellingNeutral PCaseIsAnotherKey PDupOneReading PDupGenuineOnly PDupNoReadingHash PDupForgerOnly PDupSummaries Emit
+  PSpellingNeutral PCaseIsAnotherKey PVariantIsAnotherKey PDupOneReading PDupGenuineOnly PDupNoReadingHash PDupForgerOnly PDupSummaries Emit
 CHECK_DEADLOCK FALSE
